@@ -147,6 +147,13 @@ func (p *c19) history(i int) c19history {
 			sized = append(sized, "includes-"+n)
 		}
 	}
+	// errors inside strings that hold interpolations: open ones, illegal characters with and without a closing brace
+	// behind them, nested ones
+	for k, src := range c19BrokenInterp {
+		n := fmt.Sprintf("broken-interp-%02d", k)
+		h.files[n] = src
+		sized = append(sized, n)
+	}
 	names := []string{"main", "part1", "part2", "layout", "macros", "base0", "broken-lex", "broken-parse", "includes-broken", "extends-broken", "imports-broken", "runtime-fail", "many", "no-such-template", "subdir", "", "includes-dir", "includes-empty", "extends-dir", "subdir/inner",
 		"linkout.twig", "linkdir/o.twig", "linkin.twig", "dangling.twig", "linkdir", "includes-linkout", "../" + "x", "subdir/../main", "./main", "subdir//inner", "../c19-outside.twig", "subdir/../../c19-outside.twig", "includes-dotdot"}
 	h.files["includes-dotdot"] = "a {% include '../c19-outside.twig' %} b"
@@ -190,6 +197,9 @@ func (p *c19) Describe(i int) interface{} {
 
 var c19Heads = []string{"\xff\xfe", "\xfe\xff\x00", "\xff\xfe\x00\x00", "\x00\x00\xfe\xff", "\xef\xbb\xbf", "\xef\xbb", "\x1f\x8b\x08\x00", "PK\x03\x04", "\x7fELF\x02\x01", "%PDF-1.4\n", "#!/bin/sh\n", "<?xml version=\"1.0\"?>",
 	"\x00\x00\x00\x00", "MZ\x90\x00", "GIF89a", "\xff\xd8\xff\xe0", "\x89PNG\r\n\x1a\n", "{\\rtf1", "\xff\xff\xff\xff", "BZh9", "\xfd7zXZ\x00", "\xca\xfe\xba\xbe", "\x2b\x2f\x76\x38", "\x0e\xfe\xff", "\xfb\xee\x28", "\x84\x31\x95\x33", "\r\n\r\n", "\x1b[0m"}
+
+var c19BrokenInterp = []string{"{{ \"a#{b@c\" }}", "{{ \"a#{b@\" }}", "{{ \"#{@\" }}x", "{{ \"a#{b @ c}d\" }}", "{{ \"a#{b\" }}", "{{ \"a#{ 'y@ }\" }}", "{{ \"a#{\"#{@\"}\" }}", "{{ \"a#{b}c#{d@\" }} tail {{ 1 }}", "{% set x = \"#{(1 @\" %}", "{{ \"#{[1, @\" }}",
+	"{{ \"#{{'a': @\" }}", "{{ \"a#{b\\\" }}", "{{ \"#{\" }}", "{{ \"#{}\" }}", "{{ \"#{ }#{\" }}", "{{ '#{@' }}{{ \"#{1 2\" }}"}
 
 var c19dirSeq int64
 
